@@ -23,6 +23,30 @@ import (
 
 var b64 = base64.RawURLEncoding
 
+// knownParams is the list of the Header Parameters that the jwe package understands.
+var knownParams = [...]string{
+	jwa.AlgorithmKey,
+	jwa.EncryptionAlgorithmKey,
+	jwa.CompressionAlgorithmKey,
+	jwa.JWKSetURLKey,
+	jwa.JSONWebKey,
+	jwa.KeyIDKey,
+	jwa.X509URLKey,
+	jwa.X509CertificateChainKey,
+	jwa.X509CertificateSHA1Thumbprint,
+	jwa.X509CertificateSHA256Thumbprint,
+	jwa.TypeKey,
+	jwa.ContentTypeKey,
+	jwa.CriticalKey,
+	jwa.EphemeralPublicKeyKey,
+	jwa.AgreementPartyUInfoKey,
+	jwa.AgreementPartyVInfoKey,
+	jwa.InitializationVectorKey,
+	jwa.AuthenticationTagKey,
+	jwa.PBES2SaltInputKey,
+	jwa.PBES2CountKey,
+}
+
 // Header is a decoded JSON Object Signing and Encryption (JOSE) Header.
 type Header struct {
 	alg     jwa.KeyManagementAlgorithm
@@ -1054,6 +1078,17 @@ func decodeHeader(raw map[string]any) (*Header, error) {
 	h.cty, _ = d.GetString(jwa.ContentTypeKey)
 	h.crit, _ = d.GetStringArray(jwa.CriticalKey)
 
+	// verify critical parameter
+CRIT_LOOP:
+	for _, param1 := range h.crit {
+		for _, param2 := range knownParams {
+			if param1 == param2 {
+				continue CRIT_LOOP
+			}
+		}
+		d.SaveError(fmt.Errorf("jwe: unknown parameter is in crit: %q", param1))
+	}
+
 	// Header Parameters Used for ECDH Key Agreement
 	if epk, ok := d.GetObject(jwa.EphemeralPublicKeyKey); ok {
 		key, err := jwk.ParseMap(epk)
@@ -1292,6 +1327,9 @@ func ParseJSON(data []byte) (*Message, error) {
 	if err != nil {
 		return nil, err
 	}
+	if len(unprotected.crit) > 0 {
+		return nil, errors.New("jwe: crit must be integrity protected")
+	}
 
 	b64ciphertext := []byte(raw.Ciphertext)
 	ciphertext, err := b64Decode(b64ciphertext)
@@ -1315,6 +1353,9 @@ func ParseJSON(data []byte) (*Message, error) {
 		header, err := decodeHeader(r.Header)
 		if err != nil {
 			return nil, err
+		}
+		if len(header.crit) > 0 {
+			return nil, errors.New("jwe: crit must be integrity protected")
 		}
 		b64encryptedKey := []byte(r.EncryptedKey)
 		encryptedKey, err := b64Decode(b64encryptedKey)
